@@ -251,6 +251,16 @@ func (b *Built) build(e *Expr, h *Hooks) parsley.Parser {
 			p = h.UnderMemo(e, p)
 		}
 		p = combinator.Memoize(p)
+		if h.Budget != nil {
+			// a budget tick OUTSIDE the extra Memoize: a repetition over a memoized sub-expression is answered from the cache -
+			// no terminal runs, no nonterminal boundary is crossed - while the sequence above it multiplies result paths
+			// (C02 thorough at seed 1, job 181: one worker out of memory); the cache hits must be able to end the case
+			inner, budget := p, h.Budget
+			p = parser.Func(func(ctx *parsley.Context, lrc data.IntMap, pos parsley.Pos) (parsley.Node, data.IntSet, parsley.Error) {
+				budget(ctx)
+				return inner.Parse(ctx, lrc, pos)
+			})
+		}
 	}
 	if h.Around != nil {
 		p = h.Around(e, p)
